@@ -2,7 +2,7 @@
 from vlib import modules
 
 MODS = ["AvoVerif.Props.C11", "AvoVerif.Props.C11Text", "AvoVerif.Props.C11Tables", "AvoVerif.Props.C11Examples",
-        "AvoVerif.Props.C11Accept", "AvoVerif.Props.C11Bind", "AvoVerif.Props.C11Hist"]
+        "AvoVerif.Props.C11Accept", "AvoVerif.Props.C11Bind", "AvoVerif.Props.C11Hist", "AvoVerif.Props.C11Cover"]
 
 # kinds of in-place change of the history stream (harness/c11hist.go); every one must be followed by a re-print of a
 # file that had been printed before the change
@@ -11,6 +11,32 @@ HIST_KINDS = ["opcode", "suffix_same_len", "suffix_same_len_inplace", "suffix_ot
               "node_insert", "node_remove", "node_replace", "nodes_all", "fn_name", "fn_attrs", "fn_signature",
               "fn_localsize", "fn_isa", "fn_doc_pragmas", "includes", "constraints", "sec_insert", "sec_remove",
               "sec_replace", "data"]
+
+
+def cover_dims():
+    """Every value of every dimension of the covering stream (harness/c11cov.go), listed HERE independently of the
+    generator: each must have been assembled and read back in every run."""
+    d = []
+    d += [f"attr_fn_only={b}" for b in range(16)]
+    d += [f"attr_gl_only={b}" for b in range(16)]
+    d += [f"attr_fn_pair={i}_{j}" for i in range(16) for j in range(i + 1, 16)]
+    gl = [1, 2, 3, 4, 7, 8, 12]
+    d += [f"attr_gl_pair={i}_{j}" for x, i in enumerate(gl) for j in gl[x + 1:]]
+    d += [f"attr_pos={p}_{k}" for p in ("first", "middle", "last") for k in ("fn", "gl")]
+    d += [f"attr_include={x}" for x in ("textflag", "other", "both")]
+    d += [f"attr_include_bit={b}" for b in (2, 11, 12)]
+    d += [f"data={c}" for c in (
+        "f64_pow10", "f64_one_digit", "f64_two_digits", "f64_boundaries", "f64_integral", "f64_17_digits", "f64_random",
+        "f32_pow10", "f32_one_digit", "f32_boundaries", "f32_integral", "f32_9_digits", "f32_random",
+        "int_i8", "int_u8", "int_i16", "int_u16", "int_i32", "int_u32", "int_i64", "int_u64",
+        "str_every_byte_alone", "str_all_bytes", "str_escapes", "str_long", "mixed", "public", "no_data")]
+    d += [f"text={c}" for c in (
+        "long_opcodes", "many_isa", "suffix_lists", "labels", "many_sections",
+        "frame_0", "frame_8", "frame_16", "frame_24", "frame_4096", "frame_65528", "frame_1048576", "frame_16777216", "frame_1073741824",
+        "args_0", "args_1", "args_result_only", "args_padded", "args_big_array", "args_huge_array", "args_many")]
+    d += [f"suffix={x}" for x in ("Z", "BCST", "BCST.Z", "SAE", "SAE.Z", "RN_SAE", "RZ_SAE", "RU_SAE", "RD_SAE",
+                                  "RN_SAE.Z", "RZ_SAE.Z", "RU_SAE.Z", "RD_SAE.Z")]
+    return d
 
 
 def floors(ctx, sub, n, spec):
@@ -37,7 +63,7 @@ def floors(ctx, sub, n, spec):
 
 def run(ctx):
     # isolation: only the shared core plus C11's own Go files are compiled into .work/bin/avoh-C11
-    if not ctx.build_harness(["c11.go", "c11enc.go", "c11hist.go"]):
+    if not ctx.build_harness(["c11.go", "c11enc.go", "c11hist.go", "c11cov.go"]):
         return
     ctx.regen([modules.TEXTFLAGS, modules.TEXTFLAGH])
     ctx.forbidden_scan()
@@ -102,6 +128,20 @@ def run(ctx):
         for k in HIST_KINDS:
             spec["reprint_" + k] = ((lambda n: n // 200) if k == "suffix_truncated" else (lambda n: n // 40), None)
         floors(ctx, "c11hist", n3, spec)
+    # (d) measured, covering: every value of every dimension of what a file can contain (attributes alone / in pairs /
+    # per position / with user includes; every constant type over its whole range; rare printer shapes) through
+    # pass.Compile, the printer and `go tool asm -S`, data symbols read back byte by byte
+    ctx.differential("c11cov", 0, extra=["-work", ctx.dir], max_report=1000,
+                     nontrivial=lambda req, resp: req.startswith(("accept-objdata", "accept-asm")))
+    if not ctx.replay:
+        spec = {k: (None, 0) for k in ("cov_build_error", "cov_compile_error", "cov_ctor_error", "cov_labeltarget_error",
+                                       "cov_print_error", "cov_print_panic", "cov_rejected")}
+        spec.update({"cov_cases": (243, None), "cov_accepted": (243, None), "cov_data_symbols": (90, None),
+                     "cov_data_constants": (4000, None), "cov_data_bytes": (30000, None),
+                     "float_literals": (3000, None), "cov_scans": (5000, None)})
+        for d in cover_dims():
+            spec["cov_" + d] = (1, None)
+        floors(ctx, "c11cov", 0, spec)
     # measured: compiled programs through `go tool asm -S` and binutils objdump
     n2 = 300 if quick else 10000
     ctx.differential("c11asm", n2, extra=["-work", ctx.dir], max_report=1000,
@@ -135,7 +175,8 @@ def run(ctx):
         "proved for all files (Lean): the model of goasm.go prints every instruction once and in order, keeps every label in "
         "front of the same instruction, one TEXT line per function with attribute clause/frame/args, and the printed bytes read "
         "back as the file (print_faithful, under the token hypotheses WFFile); the acceptors are sound w.r.t. their declarative "
-        "statements (acceptPrint_sound, acceptAsmFn_sound, acceptAsm_sound, acceptHist_sound); over call histories (Model/PrintHist: "
+        "statements (acceptPrint_sound, acceptAsmFn_sound, acceptAsm_sound, acceptHist_sound, acceptGl_sound, acceptObjDataE_sound); the plain decimal text of a float with `.0` appended when it "
+        "has no point is ONE float token of the (modelled) assembler scanner followed by `)` (withPoint_float; scan_point, scan_point_exp, scan_exp); over call histories (Model/PrintHist: "
         "heap of files; new / drop / edit in place / inspect / print) the text of EVERY print is the rendering of the content the file "
         "has at that moment and reads back as that content (hist_print_current, hist_print_faithful, hist_C11_partial), inspections and "
         "prints change nothing (inspections_irrelevant, heapAfter_frame), an edit shows in the next print (reprint_after_edit, "
@@ -159,6 +200,20 @@ def run(ctx):
         "values from FRESH objects). `hist` = exact bytes of every print vs the model's rendering of the state reached by the same "
         "operations; `accept-hist` = every print's real text read back against the content of that moment. Floors per kind of change x "
         "(printed before | only inspected before | never seen before). "
+        "c11cov: a COVERING set of file contents, every value of every dimension alone in a program built through build.Context, "
+        "compiled by pass.Compile, printed, assembled by `go tool asm -S` and read back (246 dimension values listed in "
+        "vlib/props/c11.py cover_dims, each one a floor of every run): every single attribute bit on a lone function / on a data "
+        "section next to an attribute-free function, every pair of bits on a function, pairs of the data-relevant bits on a data section, "
+        "the only flagged section first / middle / last, the user's own includes; data sections with every constant type over its "
+        "whole range (F64/F32: all powers of ten both signs, one- and two-digit mantissas, boundaries incl. subnormals, -0, "
+        "1e-6/1e21 neighbours, integral values, 17/9-digit values, random bit patterns; I8..U64 extremes; strings with every byte "
+        "value alone and together, escapes, 4 KB), non-static symbols, gaps, BSS; long suffixed opcodes next to short ones, every "
+        "suffix list the constructors accept, label runs, 40 functions + 10 data sections in one file, frames up to 2^30, "
+        "argument sizes up to 1 GiB. Requests: those of c11asm per file (tag cover=…) plus `accept-objdata` (every byte of every "
+        "constant THE GENERATOR chose — math.Float64bits etc., independent of avo's text — at its offset in the object symbol, zero "
+        "gaps, size, kind RODATA/NOPTR/TLSBSS/BSS, DUPOK, static), `accept-floatlit` (every float DATA value of every printed file of "
+        "c11/c11asm/c11cov is one float token of the assembler's scanner between `$(` and `)`: Model/AsmLit) and `scan-number` "
+        "(exact: Model/AsmLit scanNumber vs Go's text/scanner on ~14 000 literals and neighbours). "
         "c11asm: programs built through build.Context (function/data/label names from pools incl. register-like and "
         "macro-like symbol names, every J* opcode of the compiled table that takes a label — rel8-only ones in a short shape —, "
         "runs of 65..200 instructions, 15 attribute sets + random 16-bit attribute words, data sections referenced from code), "
@@ -191,6 +246,10 @@ def run(ctx):
         "invalid UTF-8); printf verbs in the constraint block cannot reach goasm.header's Printf because buildtags.Format rejects them",
     ]
     ctx.assumptions += [
+        "float DATA values: Inf/NaN are not generated (C13 scopes them out as well); Model/AsmLit models decimal number tokens only "
+        "(no 0x, no `_`, no leading point): a literal outside that fragment is not judged by accept-floatlit (the assembler run still judges it)",
+        "the mapping of GLOBL flags to object symbol kinds (RODATA, else NOPTR, else TLSBSS; BSS without DATA lines) is transcribed from "
+        "cmd/internal/obj (Link.Globl) into Drv/C11 expectKind and confirmed on the unchanged tree by every run",
         "histories: one printer object prints one file (reusing a printer object appends to its buffer: not a use the property speaks about); "
         "changes that go through passes (re-running pass.Compile parts after an edit) are not generated; a history is single-threaded",
     ]
@@ -201,6 +260,9 @@ def run(ctx):
         "property; C11 checks only that the printer passes Op.Asm() through unchanged and in order",
         "Gen.attrname is obtained by calling attr.Attribute(1<<i).Asm() on the compiled package (no source parsing)",
         "Oracle.textflagH is parsed from $(go env GOROOT)/pkg/include/textflag.h on every run",
+        "c11cov: the expected bytes of a constant are computed by the harness from the Go value it chose (encoding/binary, "
+        "math.Float32bits/Float64bits); the `-S` listing of go tool asm as the content of data symbols; Go's text/scanner with the "
+        "mode bits of cmd/asm/internal/lex as the assembler's scanner",
         "c11hist: the harness' own mirror of each in-place change as a model edit (harness/c11hist.go mut*: glue; a wrong mirror shows as a "
         "mismatch on the unchanged tree, never hides one), and the derived values of a change taken from fresh avo objects "
         "(ir.NewFunction + SetSignature for Stub/FrameBytes/ArgumentBytes, a fresh ir.Instruction for IsUnconditionalBranch)",
